@@ -614,11 +614,14 @@ def check(repo, run, tier):
     g(unitrules.eval_context_init, repo, run, 'C12.R1')
     g(unitrules.eval_pipeline, repo, run, 'C12.R10')
     g(unitrules.tag_spec, repo, run, 'C12.R4', ['!eval', '!fstr', '!import'])
+    g(unitrules.version_test_table, repo, run, 'C12.R5')
+    g(unitrules.namespace_reuse_guard, repo, run, 'C12.R1b')
     g.done()
 
 
 def mutants(repo):
     return [
+        Mutant('namespace-reuse-condition', lambda r: in_func(r, 'EvalNode.ayns.on_evaluate_impl', "if self.persistent_namespace and eval_module_name in sys.modules:", "if self.persistent_namespace or eval_module_name in sys.modules:"), ['C12.R1b']),
         Mutant('backward-jumps-go-forward', lambda r: in_func(r, 'EvalNode._patch_access_to_globals', "            if is_backward:\n                old_loc_abs = old_jump_loc - old_loc_rel", "            if not is_backward:\n                old_loc_abs = old_jump_loc - old_loc_rel"), ['C12.R5']),
         Mutant('backward-flag-never-set', lambda r: in_func(r, 'EvalNode._patch_access_to_globals', "                is_backward = True\n", "                is_backward = False\n"), ['C12.R5']),
         Mutant('leading-lines-not-executed', lambda r: in_func(r, 'EvalNode.ayns.on_evaluate_impl', "            exec(exec_code_patched, gbls)\n", ""), ['C12.R10']),
